@@ -14,7 +14,7 @@ from harness.runner import Check, jdec
 from harness import protocol as P
 from harness import scenarios as S
 from harness import kernel as K
-from harness.world import State, World, HarnessError
+from harness.world import State, World, HarnessError, world_digest
 
 from ref import keys as RK
 
@@ -187,17 +187,17 @@ def run_case(case):
             continue
         for ep in w.endpoints.values():
             if not ep.alive:
-                return [('daemon-died', '%s died: %r' % (ep.name, ep.dead_reason[:2]))], completed
+                return [('daemon-died', '%s died: %r' % (ep.name, ep.dead_reason[:2]))], completed, world_digest(w)
         if k == 0 and (est_index(w.endpoints['A']) is None or not w.endpoints['A'].kernel.sad):
             if case.get('must_establish', True):
                 probs.append(('does-not-establish', 'the initial exchanges do not complete'))
-            return probs, completed
+            return probs, completed, world_digest(w)
         completed += 1
         for sig, msg in mirror_problems(w) + direction_problems(w, mark):
             probs.append(('%s:after-%s' % (sig, op.rstrip('AB') if not op.startswith('init') else 'init'), msg + ' [after %s]' % op))
         if probs:
             break
-    return probs, completed
+    return probs, completed, world_digest(w)
 
 
 # ------------------------------------------------------------------ the cases
@@ -293,8 +293,7 @@ CASES = None
 
 def work(i):
     c = CASES[i]
-    probs, completed = run_case(c)
-    return probs, completed
+    return run_case(c)
 
 
 def replay(path):
@@ -302,7 +301,7 @@ def replay(path):
     global CASES
     CASES = cases()
     idx = [i for i, c in enumerate(CASES) if c['label'] == doc['label']]
-    probs, completed = work(idx[0])
+    probs, completed, _ = work(idx[0])
     for r in probs:
         print('reproduced:', r)
     print('REPLAY %s' % ('reproduces a violation' if probs else 'does not reproduce'))
@@ -316,7 +315,15 @@ def main():
     CASES = cases()
     total_negotiations = 0
     fam_counts = collections.Counter()
-    for c, (probs, completed) in zip(CASES, ck.pmap(work, range(len(CASES)))):
+    results = ck.pmap(work, range(len(CASES)))
+    # determinism: every 7th case is run a second time (another worker process) and must give identical observations
+    again = list(range(0, len(CASES), 7))
+    validated = 0
+    for i, r2 in zip(again, ck.pmap(work, again)):
+        if r2[2] != results[i][2]:
+            raise HarnessError('case %s is not deterministic: two runs differ' % CASES[i]['label'])
+        validated += 1
+    for c, (probs, completed, _) in zip(CASES, results):
         total_negotiations += completed
         fam = c['label'].split(':')[0]
         fam_counts[fam] += 1
@@ -324,7 +331,7 @@ def main():
             gen = c['label'] if fam != 'history' else 'history:%s' % c['label'].split(':')[1]
             ck.violation('%s:%s' % (sig, gen), '%s [case %s]' % (msg, c['label']), dict(label=c['label']))
     ck.coverage.update(states=total_negotiations + len(CASES), transitions=total_negotiations, evaluations=len(CASES),
-                       distinct_nontrivial=len({c['label'] for c in CASES}), traces_validated_against_impl=0,
+                       distinct_nontrivial=len({c['label'] for c in CASES}), traces_validated_against_impl=validated,
                        rule='one evaluation = one case (configuration pair + history of negotiations run to completion, each '
                             'followed by the mirror / key comparison); transitions = negotiations completed and judged',
                        samples=[c['label'] for c in CASES[::max(1, len(CASES) // 30)]][:30], exhaustive=True,
